@@ -456,6 +456,27 @@ static void run_case(vmc::Ctx& ctx, const Case& c, int sweep /*0 none, 1 strided
   for (char a : frame_allneg) if (a) allneg_unsigned = true;
   if (allneg_unsigned) ctx.count("cases_with_all_negative_frame_into_unsigned_type");
 
+  // ---- scale setting: 0 automatic, 1, 0.5, or (sc == 3, integer types) the SMALLEST float scale that still fits the data into the type
+  //      (max|v| / type_max rounded up to float): legal for the caller, and the case where a lost safety margin overflows the type
+  float scale_setting = c.sc < 3 ? SCALES[c.sc] : 0.F;
+  if (c.sc == 3)
+    {
+      double lo_t, hi_t; type_range(c.T, lo_t, hi_t);
+      double need = 0;
+      auto upd = [&](const VoxelsOnCartesianGrid<float>& im) {
+        const double mx = im.find_max(), mn = im.find_min();
+        if (mx > 0) need = std::max(need, mx / hi_t);
+        if (mn < 0 && lo_t < 0) need = std::max(need, mn / lo_t);
+      };
+      for (auto& fr : frames) upd(*fr);
+      if (par) for (int k = 1; k <= 2; ++k) upd(par_im->construct_single_density(k));
+      float fs = (float)need;
+      if ((double)fs < need) fs = std::nextafterf(fs, std::numeric_limits<float>::infinity());
+      if (!(fs > 0)) { ctx.count("just_fitting_scale_not_applicable"); return; }
+      scale_setting = fs;
+      ctx.count("cases_with_just_fitting_scale");
+    }
+
   // ---- write
   std::string filename = base;
   Succeeded ok = Succeeded::no;
@@ -465,34 +486,34 @@ static void run_case(vmc::Ctx& ctx, const Case& c, int sweep /*0 none, 1 strided
         if (c.cont == "single")
           {
             InterfileOutputFileFormat fmt(nt, bo);
-            fmt.set_scale_to_write_data(SCALES[c.sc]);
+            fmt.set_scale_to_write_data(scale_setting);
             ok = fmt.write_to_file(filename, *frames[0]);
           }
         else if (c.cont == "dyn")
           {
             InterfileDynamicDiscretisedDensityOutputFileFormat fmt(nt, bo);
-            fmt.set_scale_to_write_data(SCALES[c.sc]);
+            fmt.set_scale_to_write_data(scale_setting);
             ok = fmt.write_to_file(filename, *dyn_im);
           }
         else if (c.cont == "multi")
           {
             MultiDynamicDiscretisedDensityOutputFileFormat fmt;
             shared_ptr<InterfileOutputFileFormat> ind(new InterfileOutputFileFormat(nt, bo));
-            ind->set_scale_to_write_data(SCALES[c.sc]);
+            ind->set_scale_to_write_data(scale_setting);
             fmt.individual_output_type_sptr = ind;
             ok = fmt.write_to_file(filename, *dyn_im);
           }
         else if (c.cont == "par")
           {
             InterfileParametricDiscretisedDensityOutputFileFormat<ParametricVoxelsOnCartesianGridBaseType> fmt(nt, bo);
-            fmt.set_scale_to_write_data(SCALES[c.sc]);
+            fmt.set_scale_to_write_data(scale_setting);
             ok = fmt.write_to_file(filename, *par_im);
           }
         else
           {
             MultiParametricDiscretisedDensityOutputFileFormat<ParametricVoxelsOnCartesianGridBaseType> fmt;
             shared_ptr<InterfileOutputFileFormat> ind(new InterfileOutputFileFormat(nt, bo));
-            ind->set_scale_to_write_data(SCALES[c.sc]);
+            ind->set_scale_to_write_data(scale_setting);
             fmt.individual_output_type_sptr = ind;
             ok = fmt.write_to_file(filename, *par_im);
           }
@@ -725,7 +746,7 @@ int main(int argc, char** argv)
     static const int GEO_Q[][6] = { { 0, 0, 0, 1, 1, 1 }, { 0, 0, 0, 2, 2, 2 }, { -3, 2, 0, 1, 2, 5 }, { 2, -3, -3, 5, 2, 1 }, { 0, -2, -2, 5, 5, 5 }, { 2, 0, -3, 12, 5, 2 }, { -3, -3, 2, 2, 12, 5 } };
     for (int T = 0; T < NTYPES; ++T)
       for (int bo = 0; bo < 2; ++bo)
-        for (int sc = 0; sc < 3; ++sc)
+        for (int sc = 0; sc < (T < 8 ? 4 : 3); ++sc)
           for (int val = 0; val < NVALSETS; ++val)
             {
               if (!th)
